@@ -112,7 +112,7 @@ pub fn recv_step<S: Shape, const CAP: usize, const R: usize, const T: usize, con
         }
     }
     post_recv::<S, CAP, R, T, FAULTS, HOSTILE>(&stream, occ, src_len, &whole, got, &msg, msg_size, oom, win, poisoned, stats, &data1);
-    kani::cover!(got == 1 && fut_pendings >= 2, "w:message-after-two-pendings");
+    kani::cover!(got == 1 && fut_pendings >= (if PB >= 2 { 2 } else { PB }), "w:message-after-pendings");
 }
 
 pub fn send_step<S: Shape, const CAP: usize, const PB: usize, const FAULTS: bool>() {
@@ -205,7 +205,7 @@ pub fn send_step<S: Shape, const CAP: usize, const PB: usize, const FAULTS: bool
         assert!(n < img.ext, "a failed send did not deliver the whole message");
         assert!(poisoned == (n != 0), "the sender is poisoned exactly when a partial message is in the stream");
     }
-    kani::cover!(done == 1 && fut_pendings >= 2, "w:sent-after-two-pendings");
+    kani::cover!(done == 1 && fut_pendings >= (if PB >= 2 { 2 } else { PB }), "w:sent-after-pendings");
     kani::cover!(done == 1 && p.inner.calls >= 2, "w:sent-in-two-writes");
     kani::cover!(done == 2 && n > 0 || !FAULTS, "w:partial-then-failure-or-no-faults");
 }
@@ -248,7 +248,11 @@ aio!(V_U8, V_U8, 5, 2, 7, 3, 9);
 aio!(U_E2, U_E2, 5, 2, 7, 3, 9);
 aio!(S_SS2, SS2, 6, 2, 8, 3, 10);
 aio!(U_S1, U_S1, 8, 2, 10, 2, 12);
-// quick tier: at most 2 Pending results
-aio!(V_U8, V_U8_q, 5, 2, 7, 2, 9);
-aio!(S_SS2, SS2_q, 6, 2, 8, 2, 10);
-aio!(U_E2, U_E2_q, 5, 2, 7, 2, 9);
+// quick tier: smaller buffer, one Pending result anywhere (measured: 2 Pending at capacity 5 take
+// ~1000 s per recv harness)
+aio!(V_U8, V_U8_q, 4, 2, 6, 1, 8);
+aio!(S_SS2, SS2_q, 6, 2, 8, 1, 10);
+aio!(U_E2, U_E2_q, 4, 2, 6, 1, 8);
+// middle: two Pending results (thorough tier)
+aio!(V_U8, V_U8_m, 5, 2, 7, 2, 9);
+aio!(U_E2, U_E2_m, 5, 2, 7, 2, 9);
